@@ -77,7 +77,7 @@ pub fn scan_line(s: &str) -> Option<Line> {
 
 pub fn parse_hex_big(s: &str) -> Option<BigUint> {
     let t = s.trim();
-    let t = t.strip_prefix("0x")?;
+    let t = t.strip_prefix("0x").unwrap_or(t);
     if t.is_empty() || !t.bytes().all(|b| b.is_ascii_hexdigit()) {
         return None;
     }
@@ -131,6 +131,7 @@ pub struct Loaded {
     pub lines: usize,
     pub p2v_lines: usize,
     pub hex_checked_bytes: usize,
+    pub ambiguous: Vec<String>,
 }
 
 fn need<'a>(v: &'a Value, k: &str) -> Result<&'a Value, String> {
@@ -151,12 +152,25 @@ fn log2_exact(x: u64, what: &str) -> Result<u32, String> {
 /// Load a Stone proof from its JSON text.  Err = the file is malformed or holds a value
 /// that does not fit the verifier's types.
 pub fn load(text: &str) -> Result<Loaded, String> {
+    load_opts(text, true)
+}
+
+/// `strict` = every consistency check (byte-level agreement with proof_hex, contiguous
+/// P->V ranges, exactly one of each singleton message, numbered FRI layers): used for the
+/// shipped corpus.  Lenient = "what the file's annotations say, in stream order": used as the
+/// oracle for *edited* files, where the property only asks that the parser returns the
+/// recorded values or an error.  In lenient mode a repeated singleton is reported in
+/// `ambiguous` (first occurrence kept) and lines of unknown kinds are ignored.
+pub fn load_opts(text: &str, strict: bool) -> Result<Loaded, String> {
     let doc: Value = serde_json::from_str(text).map_err(|e| format!("not JSON: {}", e))?;
     let pp = need(&doc, "proof_parameters")?;
     let pi = need(&doc, "public_input")?;
     let stark = need(pp, "stark")?;
     let fri = need(stark, "fri")?;
     let layout = need(pi, "layout")?.as_str().ok_or("layout is not a string")?.to_string();
+    if layout == "plain" {
+        return Err("unjudged: the parser knows a `plain` layout the verifier does not have".into());
+    }
     if !LAYOUTS.contains(&layout.as_str()) {
         return Err(format!("unsupported layout {}", layout));
     }
@@ -183,8 +197,8 @@ pub fn load(text: &str) -> Result<Loaded, String> {
     };
     let (cols1, cols2, cpu_step) = match (&dynamic_params, layout.as_str()) {
         (Some(d), "dynamic") => (d.num_columns_first as u64, d.num_columns_second as u64, d.cpu_component_step as u64),
-        (None, "dynamic") => return Err("dynamic layout without dynamic parameters".into()),
-        (Some(_), _) => return Err("dynamic parameters given for a static layout".into()),
+        (None, "dynamic") => return Err("unjudged: dynamic layout without dynamic parameters (column counts are not recorded)".into()),
+        (Some(_), _) => return Err("unjudged: dynamic parameters given for a static layout".into()),
         (None, l) => layout_consts(l).unwrap(),
     };
     // ---- numbers
@@ -211,9 +225,9 @@ pub fn load(text: &str) -> Result<Loaded, String> {
     let eval = log_trace as u64 + log_n_cosets;
     let tcfg = |cols: u64, h: u64| TableConfig { n_columns: fu(cols), vector: VecConfig { height: fu(h), n_verifier_friendly_commitment_layers: fu(n_friendly) } };
     let mut inner = Vec::new();
-    let mut h = eval;
+    let mut h = eval.checked_sub(steps[0]).ok_or("fri steps exceed the evaluation domain")?;
     for &s in &steps[1..] {
-        if s >= 64 {
+        if s >= 32 {
             return Err("fri step too large".into());
         }
         h = h.checked_sub(s).ok_or("fri steps exceed the evaluation domain")?;
@@ -253,6 +267,7 @@ pub fn load(text: &str) -> Result<Loaded, String> {
         return Err("empty public memory".into());
     }
     let mut main_page = Vec::new();
+    let mut pages: std::collections::BTreeMap<u64, Vec<(u64, Felt)>> = std::collections::BTreeMap::new();
     let mut first: Option<(Felt, Felt)> = None;
     for c in pm {
         let addr = need_u64(c, "address")?;
@@ -263,9 +278,10 @@ pub fn load(text: &str) -> Result<Loaded, String> {
             first = Some((fu(addr), val));
         }
         if page != 0 {
-            return Err("continuous pages are not supported by the CLI conversion (it drops their headers)".into());
+            pages.entry(page).or_default().push((addr, val));
+        } else {
+            main_page.push(AddrValue { address: fu(addr), value: val });
         }
-        main_page.push(AddrValue { address: fu(addr), value: val });
     }
     let (padding_addr, padding_value) = first.unwrap();
     let public_input = PublicInput {
@@ -280,11 +296,28 @@ pub fn load(text: &str) -> Result<Loaded, String> {
         main_page: Page(main_page),
         continuous_page_headers: vec![],
     };
+    // continuous pages: ids 1..k, each a run of consecutive addresses
+    for (i, (id, cells)) in pages.iter().enumerate() {
+        if *id != i as u64 + 1 {
+            return Err("page ids are not consecutive".into());
+        }
+        for (k, (a, _)) in cells.iter().enumerate() {
+            if *a != cells[0].0 + k as u64 {
+                return Err("continuous page is not a run of consecutive addresses".into());
+            }
+        }
+    }
+    let mut public_input = public_input;
     // ---- annotations
     let ann = need(&doc, "annotations")?.as_array().ok_or("annotations is not a list")?;
-    let hex = need(&doc, "proof_hex")?.as_str().ok_or("proof_hex is not a string")?;
-    let hex = hex.strip_prefix("0x").unwrap_or(hex);
-    let bytes: Vec<u8> = (0..hex.len() / 2).map(|i| u8::from_str_radix(&hex[2 * i..2 * i + 2], 16).map_err(|_| "proof_hex is not hex".to_string())).collect::<Result<_, _>>()?;
+    let bytes: Vec<u8> = if strict {
+        let hex = need(&doc, "proof_hex")?.as_str().ok_or("proof_hex is not a string")?;
+        let hex = hex.strip_prefix("0x").unwrap_or(hex);
+        (0..hex.len() / 2).map(|i| u8::from_str_radix(&hex[2 * i..2 * i + 2], 16).map_err(|_| "proof_hex is not hex".to_string())).collect::<Result<_, _>>()?
+    } else {
+        Vec::new()
+    };
+    let mut ambiguous: Vec<String> = Vec::new();
     let mut original = None;
     let mut interaction = None;
     let mut composition = None;
@@ -308,9 +341,13 @@ pub fn load(text: &str) -> Result<Loaded, String> {
         let b = parse_hex_big(s).ok_or(format!("bad hex value '{}'", s.chars().take(40).collect::<String>()))?;
         big_to_felt_strict(&b).ok_or("value is not a field element".to_string())
     };
-    let once = |slot: &mut Option<Felt>, v: Felt, what: &str| -> Result<(), String> {
+    let once = |slot: &mut Option<Felt>, v: Felt, what: &str, amb: &mut Vec<String>| -> Result<(), String> {
         if slot.is_some() {
-            return Err(format!("{} given twice", what));
+            if strict {
+                return Err(format!("{} given twice", what));
+            }
+            amb.push(format!("{} given twice", what));
+            return Ok(());
         }
         *slot = Some(v);
         Ok(())
@@ -320,30 +357,52 @@ pub fn load(text: &str) -> Result<Loaded, String> {
         let line = match scan_line(s) {
             Some(l) => l,
             None => {
-                if s.starts_with("P->V") || s.starts_with("V->P") {
+                if strict && (s.starts_with("P->V") || s.starts_with("V->P")) {
                     return Err(format!("unparsable annotation line: {}", s.chars().take(80).collect::<String>()));
                 }
                 continue;
             }
         };
         n_lines += 1;
-        let path = line.path.strip_prefix("/cpu air/STARK/").ok_or(format!("unexpected annotation path {}", line.path))?;
+        let path = match line.path.strip_prefix("/cpu air/STARK/") {
+            Some(p) => p,
+            None if strict => return Err(format!("unexpected annotation path {}", line.path)),
+            None => continue,
+        };
         match line.p2v {
             None => {
-                // verifier challenges, as the prover logged them
+                // verifier challenges, as the prover logged them (never handed to the verifier:
+                // in lenient mode an unreadable value is simply not logged)
+                let val = felt_of(&line.payload);
+                if strict && val.is_err() && line.kind == "Field Element" {
+                    return Err(val.unwrap_err());
+                }
                 match (path, line.kind.as_str()) {
-                    ("Interaction", "Field Element") => log.interaction_elements.push(felt_of(&line.payload)?),
-                    ("Original", "Field Element") => log.constraint_alpha = Some(felt_of(&line.payload)?),
-                    ("Out Of Domain Sampling/OODS values", "Field Element") => log.oods_point = Some(felt_of(&line.payload)?),
-                    ("Out Of Domain Sampling", "Field Element") => log.oods_alpha = Some(felt_of(&line.payload)?),
-                    ("FRI/QueryIndices", "Number") => log.query_indices.push(line.payload.trim().parse().map_err(|_| "bad query index")?),
-                    (p, "Field Element") if p.starts_with("FRI/Commitment/Layer ") => log.fri_eval_points.push(felt_of(&line.payload)?),
-                    _ => return Err(format!("unexpected V->P line: {}", s.chars().take(80).collect::<String>())),
+                    ("Interaction", "Field Element") => {
+                        if let Ok(v) = val {
+                            log.interaction_elements.push(v)
+                        }
+                    }
+                    ("Original", "Field Element") => log.constraint_alpha = val.ok(),
+                    ("Out Of Domain Sampling/OODS values", "Field Element") => log.oods_point = val.ok(),
+                    ("Out Of Domain Sampling", "Field Element") => log.oods_alpha = val.ok(),
+                    ("FRI/QueryIndices", "Number") => match line.payload.trim().parse() {
+                        Ok(q) => log.query_indices.push(q),
+                        Err(_) if strict => return Err("bad query index".into()),
+                        Err(_) => {}
+                    },
+                    (p, "Field Element") if p.starts_with("FRI/Commitment/Layer ") => {
+                        if let Ok(v) = val {
+                            log.fri_eval_points.push(v)
+                        }
+                    }
+                    _ if strict => return Err(format!("unexpected V->P line: {}", s.chars().take(80).collect::<String>())),
+                    _ => {}
                 }
             }
             Some((a0, b0)) => {
                 p2v_lines += 1;
-                if a0 != next_byte || b0 <= a0 || b0 > bytes.len() {
+                if strict && (a0 != next_byte || b0 <= a0 || b0 > bytes.len()) {
                     return Err(format!("P->V byte range [{}:{}] does not continue the stream at {}", a0, b0, next_byte));
                 }
                 next_byte = b0;
@@ -353,7 +412,7 @@ pub fn load(text: &str) -> Result<Loaded, String> {
                     vec![]
                 };
                 // byte-level cross check
-                let chunk = &bytes[a0..b0];
+                let chunk: &[u8] = if strict { &bytes[a0..b0] } else { &[] };
                 let mont = |v: &Felt| b2f(&(f2b(v) << 256usize));
                 let is_decommit_cell = path.starts_with("FRI/Decommitment/") && line.kind == "Field Element";
                 let check_word = |w: &[u8], v: &Felt, montgomery: bool| -> bool {
@@ -361,7 +420,9 @@ pub fn load(text: &str) -> Result<Loaded, String> {
                     w == expect.to_bytes_be()
                 };
                 let single: Option<BigUint> = if line.kind != "Field Elements" { Some(parse_hex_big(&line.payload).ok_or(format!("bad hex value in {}", path))?) } else { None };
-                if line.kind == "Field Elements" {
+                if !strict {
+                    // no byte-level check for edited files
+                } else if line.kind == "Field Elements" {
                     if chunk.len() != 32 * vals.len() || !vals.iter().enumerate().all(|(i, v)| check_word(&chunk[32 * i..32 * i + 32], v, false)) {
                         return Err(format!("proof_hex[{}:{}] does not hold the listed field elements", a0, b0));
                     }
@@ -385,26 +446,32 @@ pub fn load(text: &str) -> Result<Loaded, String> {
                 hex_checked += b0 - a0;
                 let one = || -> Result<Felt, String> { big_to_felt_strict(single.as_ref().unwrap()).ok_or("value is not a field element".to_string()) };
                 match (path, line.kind.as_str()) {
-                    ("Original/Commit on Trace", "Hash") => once(&mut original, one()?, "original commitment")?,
-                    ("Interaction/Commit on Trace", "Hash") => once(&mut interaction, one()?, "interaction commitment")?,
-                    ("Out Of Domain Sampling/Commit on Trace", "Hash") => once(&mut composition, one()?, "composition commitment")?,
+                    ("Original/Commit on Trace", "Hash") => once(&mut original, one()?, "original commitment", &mut ambiguous)?,
+                    ("Interaction/Commit on Trace", "Hash") => once(&mut interaction, one()?, "interaction commitment", &mut ambiguous)?,
+                    ("Out Of Domain Sampling/Commit on Trace", "Hash") => once(&mut composition, one()?, "composition commitment", &mut ambiguous)?,
                     ("Out Of Domain Sampling/OODS values", "Field Elements") => {
-                        if oods.is_some() {
-                            return Err("OODS values given twice".into());
+                        match (&mut oods, strict) {
+                            (Some(_), true) => return Err("OODS values given twice".into()),
+                            (Some(o), false) => o.extend(vals),
+                            (None, _) => oods = Some(vals),
                         }
-                        oods = Some(vals)
                     }
                     ("FRI/Commitment/Last Layer", "Field Elements") => {
-                        if last_layer.is_some() {
-                            return Err("last layer given twice".into());
+                        match (&mut last_layer, strict) {
+                            (Some(_), true) => return Err("last layer given twice".into()),
+                            (Some(o), false) => o.extend(vals),
+                            (None, _) => last_layer = Some(vals),
                         }
-                        last_layer = Some(vals)
                     }
                     ("FRI/Proof of Work", "Data") => {
                         if nonce.is_some() {
-                            return Err("nonce given twice".into());
+                            if strict {
+                                return Err("nonce given twice".into());
+                            }
+                            ambiguous.push("nonce given twice".into());
+                        } else {
+                            nonce = single.clone()
                         }
-                        nonce = single.clone()
                     }
                     (p, k) if p.starts_with("FRI/Commitment/Layer ") && k == "Hash" => {
                         let idx: u64 = p["FRI/Commitment/Layer ".len()..].parse().map_err(|_| "bad FRI layer number")?;
@@ -413,7 +480,10 @@ pub fn load(text: &str) -> Result<Loaded, String> {
                     (p, k) if p.starts_with("FRI/Decommitment/Layer 0/Virtual Oracle/Trace ") => {
                         let t: usize = p["FRI/Decommitment/Layer 0/Virtual Oracle/Trace ".len()..].parse().map_err(|_| "bad trace number")?;
                         if t >= n_traces {
-                            return Err("bad trace number".into());
+                            if strict {
+                                return Err("bad trace number".into());
+                            }
+                            continue;
                         }
                         if k == "Field Element" && line.label.starts_with("Row ") {
                             if t == 0 {
@@ -423,39 +493,61 @@ pub fn load(text: &str) -> Result<Loaded, String> {
                             tr_leaves[t].push(one()?);
                         } else if k == "Hash" || k == "Data" {
                             tr_auth[t].push(one()?);
-                        } else {
+                        } else if strict {
                             return Err(format!("unexpected decommitment line kind {} / {}", k, line.label));
                         }
                     }
                     (p, k) if p.starts_with("FRI/Decommitment/Layer ") => {
                         let l: usize = p["FRI/Decommitment/Layer ".len()..].parse().map_err(|_| "bad FRI layer number")?;
                         if l == 0 || l > fr_leaves.len() {
-                            return Err(format!("decommitment for FRI layer {} but the step list has {} layers", l, n_fri_layers));
+                            if strict {
+                                return Err(format!("decommitment for FRI layer {} but the step list has {} layers", l, n_fri_layers));
+                            }
+                            ambiguous.push("decommitment line for a FRI layer the step list does not have".into());
+                            continue;
                         }
                         if k == "Field Element" {
                             fr_leaves[l - 1].push(one()?);
                         } else if k == "Hash" || k == "Data" {
                             fr_auth[l - 1].push(one()?);
-                        } else {
+                        } else if strict {
                             return Err("unexpected FRI decommitment line kind".into());
                         }
                     }
-                    _ => return Err(format!("unexpected P->V line: {}", s.chars().take(80).collect::<String>())),
+                    _ if strict => return Err(format!("unexpected P->V line: {}", s.chars().take(80).collect::<String>())),
+                    _ => {}
                 }
             }
         }
     }
-    if next_byte != bytes.len() {
+    if strict && next_byte != bytes.len() {
         return Err(format!("annotations cover {} bytes of a {}-byte proof", next_byte, bytes.len()));
     }
     // FRI commitments must be numbered 1..n-1 in order
-    for (i, (idx, _)) in fri_commitments.iter().enumerate() {
-        if *idx != i as u64 + 1 {
-            return Err("FRI layer commitments out of order".into());
+    if strict {
+        for (i, (idx, _)) in fri_commitments.iter().enumerate() {
+            if *idx != i as u64 + 1 {
+                return Err("FRI layer commitments out of order".into());
+            }
+        }
+        if fri_commitments.len() + 1 != n_fri_layers {
+            return Err(format!("{} FRI layer commitments for {} steps", fri_commitments.len(), n_fri_layers));
         }
     }
-    if fri_commitments.len() + 1 != n_fri_layers {
-        return Err(format!("{} FRI layer commitments for {} steps", fri_commitments.len(), n_fri_layers));
+    if !pages.is_empty() {
+        let (z, alpha) = match (log.interaction_elements.first(), log.interaction_elements.get(1)) {
+            (Some(z), Some(a)) => (*z, *a),
+            _ => return Err("continuous pages but no interaction elements to take z, alpha from".into()),
+        };
+        for cells in pages.values() {
+            let vals: Vec<Felt> = cells.iter().map(|c| c.1).collect();
+            let hash = {
+                let h = vals.iter().fold(Felt::ZERO, |acc, v| starknet_crypto::pedersen_hash(&acc, v));
+                starknet_crypto::pedersen_hash(&h, &Felt::from(vals.len() as u64))
+            };
+            let prod = cells.iter().fold(Felt::ONE, |acc, (a, v)| acc * (z - (fu(*a) + alpha * *v)));
+            public_input.continuous_page_headers.push(swiftness_air::types::ContinuousPageHeader { start_address: fu(cells[0].0), size: fu(cells.len() as u64), hash, prod });
+        }
     }
     let nonce = nonce.ok_or("no proof-of-work nonce")?;
     if nonce.bits() > 64 {
@@ -473,8 +565,16 @@ pub fn load(text: &str) -> Result<Loaded, String> {
         unsent_commitment: StarkUnsentCommitment {
             traces: trace::UnsentCommitment { original: original.ok_or("no original commitment")?, interaction: interaction.ok_or("no interaction commitment")? },
             composition: composition.ok_or("no composition commitment")?,
-            oods_values: oods.ok_or("no OODS values")?,
-            fri: FriUnsent { inner_layers: fri_commitments.into_iter().map(|x| x.1).collect(), last_layer_coefficients: last_layer.ok_or("no last layer")? },
+            oods_values: match oods {
+                Some(o) => o,
+                None if strict => return Err("no OODS values".into()),
+                None => vec![],
+            },
+            fri: FriUnsent { inner_layers: fri_commitments.into_iter().map(|x| x.1).collect(), last_layer_coefficients: match last_layer {
+                Some(o) => o,
+                None if strict => return Err("no last layer".into()),
+                None => vec![],
+            } },
             proof_of_work: swiftness_pow::pow::UnsentCommitment { nonce: nonce_u64 },
         },
         witness: StarkWitness {
@@ -493,7 +593,7 @@ pub fn load(text: &str) -> Result<Loaded, String> {
     let (commit_hash, mask_bits) = hash_of(pp.get("commitment_hash").and_then(|x| x.as_str()).unwrap_or("keccak256_masked160_lsb"))?;
     let (pow_hash, _) = hash_of(pp.get("pow_hash").and_then(|x| x.as_str()).unwrap_or("keccak256"))?;
     let meta = Meta { layout, commit_hash, mask_bits, pow_hash, n_friendly, log_trace, log_n_cosets: log_n_cosets as u32, n_queries, pow_bits, fri_steps: steps };
-    Ok(Loaded { proof, meta, log, trace0_rows, lines: n_lines, p2v_lines, hex_checked_bytes: hex_checked })
+    Ok(Loaded { proof, meta, log, trace0_rows, lines: n_lines, p2v_lines, hex_checked_bytes: hex_checked, ambiguous })
 }
 
 // ------------------------------------------------------------------ the shipped corpus
